@@ -53,6 +53,7 @@ type c07Prefix struct {
 type c07Call struct {
 	Fn       string      `json:"fn"`
 	NIC      int         `json:"nic"`
+	Log      int         `json:"log,omitempty"` // level of the package loggers during the call: 0 info, 1 error, 2 debug
 	SrcMAC   drv.Hex     `json:"src_mac,omitempty"`
 	SrcIP    string      `json:"src_ip,omitempty"`
 	DstMAC   drv.Hex     `json:"dst_mac,omitempty"`
@@ -125,6 +126,9 @@ func c07RunCall(tb drv.TB, rec *drv.Rec, sub string, c c07Call) {
 	e := c07Get(c.NIC % 4)
 	w := e.nic.w
 	e.conn.Take()
+	if c.Log != 0 {
+		defer setLogLevel(c.Log)()
+	}
 	var callErr error
 	var want int = 1 // frames expected
 	callerDst := false
@@ -575,7 +579,7 @@ func c07RunCall(tb drv.TB, rec *drv.Rec, sub string, c c07Call) {
 
 func genC07Call(t *rapid.T) c07Call {
 	nics := c07NICs()
-	c := c07Call{NIC: rapid.IntRange(0, 3).Draw(t, "nic")}
+	c := c07Call{NIC: rapid.IntRange(0, 3).Draw(t, "nic"), Log: rapid.SampledFrom([]int{0, 0, 1, 2}).Draw(t, "log")}
 	w := nics[c.NIC].w
 	fns := []string{"echo4", "echo6", "na", "ns", "ra", "rs", "arp-request", "arp-requestto", "arp-probe", "arp-announce", "arp-raw", "arp-reply", "dhcp-discover", "mdns-query", "llmnr-query", "nbns-query", "nbns-nodestatus", "ssdp-search", "sleep-proxy", "pingall"}
 	c.Fn = rapid.SampledFrom(fns).Draw(t, "fn")
